@@ -180,7 +180,7 @@ class Session:
             if depth > 200:
                 return "DEEP"
             return [(id(c), id(c.data), c.data_id, getattr(c, "kind", None), dict(c.meta) if c.meta else None,
-                     id(c.parent), id(c.tree), c.node_id, rec(c, depth + 1))
+                     id(c.parent), id(c.tree), c.node_id, c.is_leaf(), rec(c, depth + 1))
                     for c in h.children]
 
         try:
